@@ -169,7 +169,7 @@ pub fn run(case: &Case, _known: &BTreeSet<String>) -> Outcome {
         o.violations.push(Violation { property: "C11".into(), rule: v.0, site: v.1, msg: format!("[{}] {}", desc, v.2), step: 0 });
     };
     if case.mode == "stale-handle" {
-        return crate::stale::run(case, crate::stale::Judge { property: "C11", image: false, bystanders: false });
+        return crate::stale::run(case, crate::stale::Judge { property: "C11", image: false, bystanders: false, refusals: false });
     }
     if case.mode == "stale-batch" {
         let mut rng = Rng::new(case.param("seed", 1) as u64);
@@ -178,7 +178,7 @@ pub fn run(case: &Case, _known: &BTreeSet<String>) -> Outcome {
             let mut sc = Case::new("C11", "stale-handle", case.version);
             sc.bufsize = *rng.pick(crate::gen::BUFSIZES);
             sc.ops = crate::stale::gen_ops(&mut rng);
-            let r = crate::stale::run(&sc, crate::stale::Judge { property: "C11", image: false, bystanders: false });
+            let r = crate::stale::run(&sc, crate::stale::Judge { property: "C11", image: false, bystanders: false, refusals: false });
             o.stats.sub_runs += 1;
             o.stats.seam_events += r.stats.seam_events;
             o.stats.api_calls += r.stats.api_calls;
